@@ -1991,10 +1991,13 @@ func (app *App) repairCascadeNode(node *mysql.Node, clusterState map[string]*nod
 		candidateState := clusterState[upstreamCandidate]
 		candidateNode := app.cluster.Get(upstreamCandidate)
 		var candidateGTIDs gtids.GTIDSet
-		if candidateState.IsMaster {
+		if candidateState.IsMaster && candidateState.MasterState != nil {
 			candidateGTIDs = gtids.ParseGtidSet(candidateState.MasterState.ExecutedGtidSet)
-		} else {
+		} else if !candidateState.IsMaster && candidateState.SlaveState != nil {
 			candidateGTIDs = gtids.ParseGtidSet(candidateState.SlaveState.ExecutedGtidSet)
+		} else {
+			app.logger.Warn().Msgf("repair: GTID set of new stream_from candidate %s is unknown, waiting", upstreamCandidate)
+			return
 		}
 		app.logger.Debug().Msgf("repair: %s GTID set = %v, new stream_from GTID set is %v", host, myGTIDs, candidateGTIDs)
 
